@@ -2,3 +2,15 @@ claim("C02", "E-CHOICE", "bounded exhaustive enumeration (choice-point DFS, full
       "Every one of the 6x12x7x11x2 combinations of message kind, signer state, certificate store, clock position relative to the certificate window and presentation is generated, signed by the harness IdP and run through the real validators; the verdict must agree with a reference model of 'honoured' written from the statement. Exhaustive inside that alphabet.",
       "Trusted: Go crypto, goxmldsig canonicalisers used by the harness signer; alphabet limited to the listed signer states / stores / clock positions.",
       "DESIGN.md 3/C02")
+claim("C03", "E-CHOICE", "bounded exhaustive enumeration (deviation-bounded choice-point DFS) of profile faults at every assertion position against a reference model of violated checks",
+      "Every combination of at most 2 (quick) / 3 (thorough) profile faults from a 20-fault menu, at every assertion position for 0..3 assertions, under 6 configurations and both entry points, is rendered, signed and validated by the real code; accept iff the model's set of violated checks is empty, and each rejection must be the typed error naming a violated element.",
+      "Trusted: harness generator and its reading of the statement (Issuer must be present even with no configured IdP issuer). Bound: fault menu, <=3 simultaneous faults, n<=3.",
+      "DESIGN.md 3/C03")
+claim("C05", "E-CHOICE", "bounded exhaustive enumeration of all orderings/equalities of up to five instants on a grid x clock positions x renderings, integer-comparison oracle",
+      "All 5^3+5^4 assignments of the time bounds of 1-2 assertions to a half-second grid, each at all 5 clock positions (every ordering and every equality), with deviation-bounded RFC 3339 renderings and a malformed/missing menu, run through RetrieveAssertionInfo; expected verdict computed by integer comparison on grid indices.",
+      "Trusted: fake clock injection (dsig.Clock). Bound: 5-point grid, 7 renderings with <=2-3 simultaneous rendering deviations, 7 malformed forms.",
+      "DESIGN.md 3/C05")
+claim("C06", "E-CHOICE", "bounded exhaustive enumeration of audience-restriction multisets x configured URI x OneTimeUse x ProxyRestriction against set semantics",
+      "Every sequence of 0..2 (quick) / 0..3 (thorough) AudienceRestrictions over every ordered list of 0..2 audiences from a 6-value near-miss alphabet, with OneTimeUse and 5 ProxyRestriction shapes, under 3 configured URIs (incl. empty) is signed and run through RetrieveAssertionInfo; warnings must equal the set semantics of the statement.",
+      "Bound: alphabet of 6 audience values, <=2 audiences per restriction, <=3 restrictions.",
+      "DESIGN.md 3/C06")
